@@ -18,7 +18,9 @@ use std::io::Write;
 use std::os::fd::{AsRawFd, FromRawFd};
 
 pub const VARS: [&str; 6] = ["NO_COLOR", "CLICOLOR_FORCE", "CLICOLOR", "TERM", "COLORTERM", "CI"];
-const VALUES: [&str; 10] = ["", "0", "1", "dumb", "xterm-256color", "true", "false", "truecolor", "24bit", "vt100"];
+const VALUES: [&str; 14] = ["", "0", "1", "dumb", "xterm-256color", "true", "false", "truecolor", "24bit", "vt100", " ", "00", "DUMB", NON_UTF8];
+/// Stands for an environment value that is not valid UTF-8 (the bytes FF FE are what is really set).
+const NON_UTF8: &str = "\u{fffd}<non-utf8 bytes ff fe>";
 
 #[derive(Clone, Copy, Debug, PartialEq, Eq, PartialOrd, Ord)]
 pub enum Sk {
@@ -85,6 +87,10 @@ pub enum EOp {
     Adapted(Sk, Vec<u8>),
     /// C08: `AutoStream::new(writer, Auto)` / `auto(writer)` over Vec or Box<dyn Write>, chunked
     AutoWrite(Sk, Vec<u8>, Vec<usize>),
+    /// C08: the real `Stdout`/`Stderr` handle (fd pointed at a file for the duration) wrapped by
+    /// `never` (0) / `always_ansi` (1) / `auto` (2), written chunk by chunk, converted with
+    /// `.lock()` before chunk `.3` (if any); what reaches the file must equal the reference
+    StdWrite(bool, u8, Vec<u8>, Option<usize>, Vec<usize>),
 }
 
 fn choice_of(code: u8) -> ColorChoice {
@@ -223,6 +229,20 @@ impl Fds {
         unsafe {
             libc::dup2(src, fd as i32);
         }
+    }
+    fn disk_len(&self) -> u64 {
+        self.disk.metadata().map(|m| m.len()).unwrap_or(0)
+    }
+    fn disk_tail(&self, from: u64) -> Vec<u8> {
+        use std::io::{Read, Seek, SeekFrom};
+        let mut f = match File::open(&self.disk_path) {
+            Ok(f) => f,
+            Err(_) => return Vec::new(),
+        };
+        let _ = f.seek(SeekFrom::Start(from));
+        let mut v = Vec::new();
+        let _ = f.read_to_end(&mut v);
+        v
     }
     fn file(&self, tty: bool) -> File {
         if tty { self.pty_slave.try_clone() } else { self.disk.try_clone() }.expect("dup")
@@ -380,7 +400,12 @@ impl World<'_> {
         self.world_changes += 1;
         match op {
             EOp::Set(i, v) => {
-                std::env::set_var(VARS[*i], v);
+                if v == NON_UTF8 {
+                    use std::os::unix::ffi::OsStringExt;
+                    std::env::set_var(VARS[*i], std::ffi::OsString::from_vec(vec![0xff, 0xfe]));
+                } else {
+                    std::env::set_var(VARS[*i], v);
+                }
                 self.m.vars[*i] = Some(v.clone());
                 self.probe("op_setenv");
             }
@@ -661,6 +686,116 @@ impl World<'_> {
                 }
                 Ok(())
             }
+            EOp::StdWrite(is_err, mode, text, lock_at, lens) => {
+                if self.world_changes > 0 {
+                    self.probes_after_change += 1;
+                }
+                let fd = if *is_err { 2u8 } else { 1u8 };
+                let fds = self.fds;
+                // point the descriptor at the file for the duration of the probe
+                fds.retarget(fd, false);
+                let before = fds.disk_len();
+                let chunks = crate::streams::split_by(text, lens);
+                let covered: usize = chunks.iter().map(|c| c.len()).sum();
+                let mut all: Vec<&[u8]> = chunks.clone();
+                all.push(&text[covered..]);
+                let lock_at = lock_at.map(|k| k.min(all.len()));
+                fn build<S: anstream::stream::RawStream>(mode: u8, raw: S) -> AutoStream<S> {
+                    match mode {
+                        0 => AutoStream::never(raw),
+                        1 => AutoStream::always_ansi(raw),
+                        _ => AutoStream::auto(raw),
+                    }
+                }
+                let mut modes = (ColorChoice::Auto, ColorChoice::Auto);
+                let mut io_err = None;
+                macro_rules! drive {
+                    ($handle:expr) => {{
+                        let mut s = build(*mode, $handle);
+                        modes.0 = s.current_choice();
+                        let cut = lock_at.unwrap_or(all.len() + 1);
+                        for c in all.iter().take(cut) {
+                            if let Err(e) = s.write_all(c) {
+                                io_err = Some(e);
+                            }
+                        }
+                        if lock_at.is_some() {
+                            let mut l = s.lock();
+                            modes.1 = l.current_choice();
+                            for c in all.iter().skip(cut) {
+                                if let Err(e) = l.write_all(c) {
+                                    io_err = Some(e);
+                                }
+                            }
+                            let _ = l.flush();
+                        } else {
+                            modes.1 = modes.0;
+                            let _ = s.flush();
+                        }
+                    }};
+                }
+                if *is_err {
+                    drive!(std::io::stderr());
+                } else {
+                    drive!(std::io::stdout());
+                }
+                let got = fds.disk_tail(before);
+                // restore the descriptor to what the model says it is
+                fds.retarget(fd, self.m.fd_tty[(fd - 1) as usize]);
+                self.probe(if lock_at.is_some() { "probe_std_handle_write_with_lock" } else { "probe_std_handle_write" });
+                self.hash.bytes(&got);
+                self.note(format!(
+                    "{} wrapped as {:?} ({} chunks, lock before chunk {:?}) delivered {:?}",
+                    if *is_err { "stderr" } else { "stdout" },
+                    modes.0,
+                    all.len(),
+                    lock_at,
+                    lossy(&got)
+                ));
+                if let Some(e) = io_err {
+                    return Err(EViolation { class: "harness".into(), detail: format!("write to a regular file failed: {e}") });
+                }
+                if modes.1 != modes.0 {
+                    return Err(EViolation {
+                        class: "lock-changes-mode".into(),
+                        detail: format!("stream reported {:?}, after .lock() it reports {:?}", modes.0, modes.1),
+                    });
+                }
+                let expected_mode = match mode {
+                    0 => Some(ColorChoice::Never),
+                    1 => Some(ColorChoice::AlwaysAnsi),
+                    _ => None,
+                };
+                if let Some(m) = expected_mode {
+                    if modes.0 != m {
+                        return Err(EViolation { class: "wrong-mode-reported".into(), detail: format!("std handle wrapped with mode {mode} reports {:?}", modes.0) });
+                    }
+                }
+                let want = if modes.0 == ColorChoice::Never {
+                    let mut r = anstream::StripStream::new(Vec::new());
+                    for c in &all {
+                        let _ = r.write_all(c);
+                    }
+                    r.into_inner()
+                } else {
+                    text.clone()
+                };
+                if got != want {
+                    return Err(EViolation {
+                        class: "std-handle-bytes-mismatch".into(),
+                        detail: format!(
+                            "{} wrapped as {:?}, written in {} chunks with .lock() before chunk {:?}: the file received {:?}, the reference {:?}",
+                            if *is_err { "stderr" } else { "stdout" },
+                            modes.0,
+                            all.len(),
+                            lock_at,
+                            lossy(&got),
+                            lossy(&want)
+                        ),
+                    });
+                }
+                Ok(())
+            }
         }
     }
 }
@@ -782,7 +917,11 @@ pub fn gen_history(rng: &mut Rng, mode: &str) -> Vec<EOp> {
         let sk = *rng.pick(&ALL_SK);
         if mode == "C08" {
             let wl = gen::workload(rng, Flavor::Text, 96);
-            if rng.chance(1, 2) {
+            if rng.chance(1, 3) {
+                let lens = gen::cuts(rng, &wl, false);
+                let lock_at = if rng.chance(1, 2) { Some(rng.below(lens.len() + 1)) } else { None };
+                ops.push(EOp::StdWrite(rng.chance(1, 2), rng.below(3) as u8, wl.bytes, lock_at, lens));
+            } else if rng.chance(1, 2) {
                 ops.push(EOp::Adapted(sk, wl.bytes));
             } else {
                 let lens = gen::cuts(rng, &wl, false);
@@ -819,6 +958,7 @@ fn op_json(op: &EOp) -> Value {
         EOp::Sticky(s, inner) => json!({"op": "probe_sticky", "stream": sk_name(*s), "change": op_json(inner)}),
         EOp::Adapted(s, t) => json!({"op": "probe_adapted_string", "stream": sk_name(*s), "text_hex": crate::trace::hex(t)}),
         EOp::AutoWrite(s, t, l) => json!({"op": "probe_auto_write", "stream": sk_name(*s), "text_hex": crate::trace::hex(t), "chunks": l}),
+        EOp::StdWrite(e, m, t, k, l) => json!({"op": "probe_std_handle_write", "handle": if *e { "stderr" } else { "stdout" }, "mode": m, "text_hex": crate::trace::hex(t), "lock_before_chunk": k, "chunks": l}),
     }
 }
 
@@ -851,6 +991,13 @@ fn op_from(v: &Value) -> Result<EOp, String> {
         "probe_auto_write" => EOp::AutoWrite(
             sk()?,
             crate::trace::unhex(s("text_hex")?)?,
+            v.get("chunks").and_then(|x| x.as_array()).map(|a| a.iter().map(|x| x.as_u64().unwrap_or(0) as usize).collect()).unwrap_or_default(),
+        ),
+        "probe_std_handle_write" => EOp::StdWrite(
+            s("handle")? == "stderr",
+            v.get("mode").and_then(|x| x.as_u64()).unwrap_or(0) as u8,
+            crate::trace::unhex(s("text_hex")?)?,
+            v.get("lock_before_chunk").and_then(|x| x.as_u64()).map(|x| x as usize),
             v.get("chunks").and_then(|x| x.as_array()).map(|a| a.iter().map(|x| x.as_u64().unwrap_or(0) as usize).collect()).unwrap_or_default(),
         ),
         other => return Err(format!("unknown env op {other}")),
@@ -1220,4 +1367,123 @@ pub fn run_parent(mode: &str, seed: u64, histories: u64, children: usize, sweep:
     batch.cells = cells.len();
     batch.wall_s = start_t.elapsed().as_secs_f64();
     batch
+}
+
+// ------------------------------------------------------------------ C17 over the real std handles
+
+/// The `WinconStream` impls for `Stdout`, `Stderr` and their locks cannot be handed a simulated
+/// writer, but the descriptor behind them can be re-pointed: fd 1/2 go to a regular file, the
+/// coloured write is made through the real handle, and what reached the file is judged by the
+/// same framing oracle as the simulated writers (`c17::framing_ok`).
+fn c17std_one(fds: &Fds, handle: u8, fg: u8, bg: u8, data: &[u8]) -> Result<(), String> {
+    use anstyle_wincon::WinconStream;
+    let color = |c: u8| if c == 0 { None } else { Some(crate::simw::ANSI_COLORS[(c - 1) as usize % 16]) };
+    let fd = if handle % 2 == 0 { 1 } else { 2 };
+    fds.retarget(fd, false);
+    let before = fds.disk_len();
+    let r = catch(|| -> std::io::Result<usize> {
+        match handle {
+            0 => {
+                let mut h = std::io::stdout();
+                let n = h.write_colored(color(fg), color(bg), data)?;
+                h.flush()?;
+                Ok(n)
+            }
+            1 => {
+                let mut h = std::io::stderr();
+                let n = h.write_colored(color(fg), color(bg), data)?;
+                h.flush()?;
+                Ok(n)
+            }
+            2 => {
+                let mut h = std::io::stdout().lock();
+                let n = h.write_colored(color(fg), color(bg), data)?;
+                h.flush()?;
+                Ok(n)
+            }
+            _ => {
+                let mut h = std::io::stderr().lock();
+                let n = h.write_colored(color(fg), color(bg), data)?;
+                h.flush()?;
+                Ok(n)
+            }
+        }
+    });
+    let delta = fds.disk_tail(before);
+    let name = ["Stdout", "Stderr", "StdoutLock", "StderrLock"][handle as usize % 4];
+    match r {
+        Ok(Ok(n)) => {
+            if n > data.len() {
+                return Err(format!("{name}::write_colored(fg={fg}, bg={bg}, {} bytes) reported {n} bytes", data.len()));
+            }
+            crate::c17::framing_ok(&delta, data, n, fg, bg)
+                .map_err(|why| format!("{name}::write_colored(fg={fg}, bg={bg}, {} bytes) -> Ok({n}) wrote {:?}: {why}", data.len(), lossy(&delta)))
+        }
+        Ok(Err(e)) => Err(format!("{name}::write_colored(fg={fg}, bg={bg}) on a regular file failed: {e}")),
+        Err(_) => Err(format!("{name}::write_colored(fg={fg}, bg={bg}) panicked")),
+    }
+}
+
+const C17STD_DATA: [&[u8]; 5] = [b"", b"x", b"hello, world\n", "caf\u{e9} \u{6f22}\u{5b57}".as_bytes(), b"two\nlines and a tail without newline"];
+
+/// `vsim c17std <report>`: all 17 x 17 colour pairs x 4 std handles x a few data strings (one of
+/// them longer than std's 1 KiB stdout buffer).
+pub fn c17std_main(report: &str) -> i32 {
+    let fds = match Fds::new() {
+        Ok(f) => f,
+        Err(e) => {
+            let _ = std::fs::write(report, json!({"harness_error": format!("cannot open pty/tmp file: {e}")}).to_string());
+            return 2;
+        }
+    };
+    let big: Vec<u8> = (0..3000u32).map(|i| if i % 97 == 96 { b'\n' } else { b'a' + (i % 26) as u8 }).collect();
+    let mut evals = 0u64;
+    let mut violation = Value::Null;
+    'outer: for handle in 0..4u8 {
+        for fg in 0..17u8 {
+            for bg in 0..17u8 {
+                for (k, data) in C17STD_DATA.iter().copied().chain(std::iter::once(&big[..])).enumerate() {
+                    evals += 1;
+                    if let Err(detail) = c17std_one(&fds, handle, fg, bg, data) {
+                        violation = json!({"handle": handle, "fg": fg, "bg": bg, "data_index": k, "data_hex": crate::trace::hex(data), "detail": detail});
+                        break 'outer;
+                    }
+                }
+            }
+        }
+    }
+    fds.retarget(1, false);
+    fds.retarget(2, false);
+    let rep = json!({"evaluations": evals, "violation": violation});
+    if std::fs::write(report, rep.to_string()).is_err() {
+        return 2;
+    }
+    0
+}
+
+pub fn c17std_replay(doc: &Value, path: &str) -> i32 {
+    let t = &doc["trace"];
+    let (h, fg, bg) = (t["handle"].as_u64().unwrap_or(0) as u8, t["fg"].as_u64().unwrap_or(0) as u8, t["bg"].as_u64().unwrap_or(0) as u8);
+    let data = crate::trace::unhex(t["data_hex"].as_str().unwrap_or("")).unwrap_or_default();
+    let fds = match Fds::new() {
+        Ok(f) => f,
+        Err(e) => {
+            eprintln!("vsim: cannot open pty: {e}");
+            return 2;
+        }
+    };
+    let saved = unsafe { libc::dup(1) };
+    let mut out = unsafe { File::from_raw_fd(saved) };
+    let r = c17std_one(&fds, h, fg, bg, &data);
+    match r {
+        Err(detail) => {
+            let _ = writeln!(out, "replay: class=bad-framing\n  {detail}");
+            let _ = writeln!(out, "VIOLATION property=C17 replay={path}");
+            1
+        }
+        Ok(()) => {
+            let _ = writeln!(out, "replay: no violation");
+            0
+        }
+    }
 }
